@@ -141,3 +141,125 @@ Proof.
   destruct (search_ge ring v =? length ring) eqn:E; [|reflexivity].
   apply Nat.eqb_eq in E. rewrite E, skipn_all, firstn_all. simpl. rewrite app_nil_r. reflexivity.
 Qed.
+
+(* ------------------------------------------------------------------ *)
+(* assembly                                                             *)
+
+From Verif Require Model.C18 Proofs.C18 Proofs.C19.
+
+Lemma dedup_complete : forall l seen x, In x l -> In x seen \/ In x (dedup seen l).
+Proof.
+  induction l as [|y r IH]; intros seen x Hin; simpl; [contradiction|].
+  destruct (existsb (Nat.eqb y) seen) eqn:E.
+  - destruct Hin as [->|Hin]; [left; apply existsb_nat_In; exact E|apply IH; exact Hin].
+  - destruct Hin as [->|Hin]; [right; now left|].
+    destruct (IH (y :: seen) x Hin) as [[->|H]|H]; [right; now left|now left|right; now right].
+Qed.
+
+Lemma calc_from_nth check fuel ring rf azs : forall is out,
+  calc_from check fuel ring rf azs is = COk out ->
+  forall k, k < length is ->
+  walk check fuel ring rf (nth k is 0) 0 [] (spread_init azs) = Done (nth k out []).
+Proof.
+  induction is as [|i r IH]; intros out H k Hk; simpl in *; [lia|].
+  destruct (walk check fuel ring rf i 0 [] (spread_init azs)) eqn:W; try discriminate.
+  destruct (calc_from check fuel ring rf azs r) eqn:C; try discriminate.
+  inversion H; subst. destruct k; [exact W|]. simpl. apply IH; [reflexivity|lia].
+Qed.
+
+Lemma az_set_nozone_seen r : az_set [0%Z] (nozone r) = [0%Z].
+Proof. induction r as [|h r IH]; simpl; [reflexivity|exact IH]. Qed.
+
+Lemma az_set_nozone hs : hs <> [] -> az_set [] (nozone hs) = [0%Z].
+Proof. destruct hs as [|h r]; [congruence|]. intros _. simpl. apply az_set_nozone_seen. Qed.
+
+Lemma nozone_length hs : length (nozone hs) = length hs.
+Proof. apply map_length. Qed.
+
+Lemma nozone_sections_az hs s : In s (sort_sections (sections_of 0 (nozone hs))) -> s_az s = 0%Z.
+Proof.
+  intro Hs. apply (proj1 (sort_sections_In _ _)) in Hs. apply sections_of_In in Hs as [_ [h [Hn _]]].
+  apply nth_error_In in Hn. unfold nozone in Hn. apply in_map_iff in Hn as [x [E _]]. inversion E. reflexivity.
+Qed.
+
+Lemma loop_is_spec hs rf v :
+  rf <= length hs -> Forall (fun h => h <> []) hs -> hs <> [] ->
+  loop_answers hs rf v = Some (spec_answers (spec_ring hs) rf v).
+Proof.
+  intros Hrf Hsec Hne.
+  set (eps := nozone hs).
+  assert (Hsec' : Forall (fun e : Z * list Z => snd e <> []) eps).
+  { unfold eps, nozone. rewrite Forall_forall in *. intros e He. apply in_map_iff in He as [h [<- Hh]]. simpl. auto. }
+  assert (Hlen : length eps = length hs) by apply nozone_length.
+  destruct (Proofs.C19.single_zone_ok eps rf) as [ring [reps K]].
+  { unfold eps. rewrite (az_set_nozone hs Hne). simpl. lia. }
+  { lia. }
+  { exact Hsec'. }
+  (* shape of the result *)
+  assert (Heq : loop_answers hs rf v = Model.C18.ketama_answers eps rf v).
+  { unfold loop_answers, loop_query, Model.C18.ketama_answers. fold eps. rewrite Hlen. reflexivity. }
+  rewrite Heq.
+  assert (Hsne : sections_of 0 eps <> []).
+  { destruct hs as [|h r]; [congruence|]. inversion Hsec; subst. destruct h as [|x h]; [congruence|]. simpl. discriminate. }
+  destruct (Model.C18.ketama_answers eps rf v) as [a|] eqn:A.
+  2:{ unfold Model.C18.ketama_answers in A. rewrite K in A. discriminate. }
+  destruct (Proofs.C18.ketama_answers_spec eps rf v a Hsne A) as [ring2 [reps2 [K2 [Hring [Ea _]]]]].
+  rewrite K in K2. inversion K2; subst ring2 reps2. clear K2. f_equal. rewrite Ea.
+  (* the replicas of the section found by the lookup *)
+  pose proof K as K'. unfold ketama_new, ketama_new_fuel in K'.
+  destruct (length eps <? rf); [discriminate|].
+  destruct (calc_replicas true _ (sort_sections (sections_of 0 eps)) rf (az_set [] eps)) eqn:C; try discriminate.
+  inversion K'; subst ring replicas. clear K'. unfold calc_replicas in C.
+  set (ring := sort_sections (sections_of 0 eps)) in *.
+  set (idx := ring_index ring v).
+  assert (Hidx : idx < length ring) by (apply Proofs.C18.ring_index_lt; exact Hring).
+  pose proof (calc_from_nth _ _ _ _ _ _ _ C idx ltac:(rewrite seq_length; exact Hidx)) as W.
+  rewrite seq_nth in W by exact Hidx. simpl in W.
+  unfold eps in W at 2. rewrite (az_set_nozone hs Hne) in W. simpl in W.
+  assert (Hdone : rf <= length (lw rf [] (rot_i ring idx))).
+  { rewrite lw_spec by (simpl; lia). simpl. rewrite firstn_length.
+    assert (length hs <= length (dedup [] (map s_ep (rot_i ring idx)))); [|lia].
+    rewrite <- (seq_length (length hs) 0).
+    apply NoDup_incl_length; [apply seq_NoDup|].
+    intros k Hk. apply in_seq in Hk.
+    destruct (nth_error eps k) as [[az h]|] eqn:N; [|apply nth_error_None in N; lia].
+    assert (h <> []). { rewrite Forall_forall in Hsec'. apply (Hsec' (az, h)). eapply nth_error_In; eauto. }
+    destruct (sections_of_has eps 0 k az h N H) as [s [Hs [He _]]].
+    destruct (dedup_complete (map s_ep (rot_i ring idx)) [] k) as [[]|Hd]; [|exact Hd].
+    apply in_map_iff. exists s. split; [exact He|].
+    unfold rot_i. apply in_or_app.
+    assert (Hin : In s ring) by (apply sort_sections_In; exact Hs).
+    rewrite <- (firstn_skipn idx ring) in Hin. apply in_app_or in Hin. tauto. }
+  rewrite (walk_follows ring Hring 0%Z (nozone_sections_az hs) rf (rot_i ring idx)) in W.
+  - injection W as W'. rewrite <- W'. rewrite lw_spec by (simpl; lia). simpl.
+    unfold spec_answers, spec_ring. fold eps. fold ring.
+    rewrite (rot_v_is_rot_i ring v (sort_sections_StronglySorted _)). reflexivity.
+  - intros t Ht. rewrite rot_i_length in Ht. apply rot_i_nth; assumption.
+  - rewrite rot_i_length. simpl. lia.
+  - rewrite rot_i_length. unfold walk_fuel. unfold ring. rewrite sort_sections_length. nia.
+  - exact Hdone.
+Qed.
+
+Lemma ins_length {A} p (e : A) l : length (ins p e l) = S (length l).
+Proof.
+  unfold ins. rewrite app_length. simpl.
+  rewrite <- (firstn_skipn p l) at 3. rewrite app_length. lia.
+Qed.
+
+Lemma add_node_loop hs p e rf v :
+  p <= length hs -> rf <= length hs -> hs <> [] ->
+  Forall (fun h => h <> []) (ins p e hs) ->
+  NoDup (map s_hash (sections_of 0 (nozone (ins p e hs)))) ->
+  exists A A', loop_answers hs rf v = Some A /\ loop_answers (ins p e hs) rf v = Some A' /\
+               only_onto_new p A A' = true.
+Proof.
+  intros Hp Hrf Hne Hsec Hnd.
+  assert (Hsec0 : Forall (fun h => h <> []) hs).
+  { rewrite Forall_forall in *. intros h Hh. apply Hsec. unfold ins.
+    rewrite <- (firstn_skipn p hs) in Hh. apply in_app_or in Hh as [Hh|Hh]; apply in_or_app; [now left|right; now right]. }
+  exists (spec_answers (spec_ring hs) rf v), (spec_answers (spec_ring (ins p e hs)) rf v).
+  split; [apply loop_is_spec; assumption|]. split.
+  - apply loop_is_spec; [rewrite ins_length; lia|exact Hsec|].
+    intro X. apply (f_equal (@length _)) in X. rewrite ins_length in X. discriminate.
+  - apply add_node_only_onto_new; assumption.
+Qed.
